@@ -58,6 +58,11 @@ type Op struct {
 	HidesCause bool
 	// Unreg: builds a type with no decoder (decodes to an opaque type).
 	Unreg bool
+	// QuirkOf, when set, names the sibling op that differs from this one
+	// only by avoiding a documented, test-pinned rendering quirk of the
+	// library (see DESIGN.md §4). Quirk ops are explored in a separate
+	// pass so that one known finding does not flood every composition.
+	QuirkOf string
 }
 
 // Term is a constructor expression.
